@@ -520,8 +520,7 @@ theorem accept_view {O : Oracles} {q : AggStmt} {key : List Value} {subs : List 
       have hg := gvals_view hv q.havingAggs 0 (having_slots q) hgv
       cases he : eval O { groupKeys := keyBindings q key, groupValues := gvals } hx with
       | ok v =>
-        simp only [he, okOf, Option.map_some, Option.some.injEq] at h
-        subst h
+        simp only [he, okOf, Option.bind_some] at h
         unfold acceptGroup
         simp only [keyBindings] at he
         simp only [bind, Outcome.bind, pure]
@@ -529,6 +528,11 @@ theorem accept_view {O : Oracles} {q : AggStmt} {key : List Value} {subs : List 
             match x with
             | (j, (id, k)) => (id, (alGet subs (q.items.length + j)).getD (emptyGroupValue k))) = gvals := hg
         rw [this, he]
+        cases hc : condHolds v with
+        | ok b => simp only [hc, Option.some.injEq] at h; subst h; exact hc
+        | error k => simp [hc] at h
+        | panic k => simp [hc] at h
+        | oracleMissing k => simp [hc] at h
       | error k => simp [he, okOf] at h
       | panic k => simp [he, okOf] at h
       | oracleMissing k => simp [he, okOf] at h
